@@ -236,7 +236,7 @@ bash256
 	bashHashStepG(hash, hash_len, state)
 #define bash256StepV(hash, state) bashHashStepV(hash, 32, state)
 #define bash256StepV2(hash, hash_len, state)\
-	bashHashStepV2(hash, hash_len, state)
+	bashHashStepV(hash, hash_len, state)
 #define bash256Hash(hash, src, count) bashHash(hash, 128, src, count)
 
 /*
@@ -251,9 +251,9 @@ bash384
 #define bash384StepG(hash, state) bashHashStepG(hash, 48, state)
 #define bash384StepG2(hash, hash_len, state)\
 	bashHashStepG(hash, hash_len, state)
-#define bashHash384StepV(hash, state) bashHashStepV(hash, 48, state)
+#define bash384StepV(hash, state) bashHashStepV(hash, 48, state)
 #define bash384StepV2(hash, hash_len, state)\
-	bashHashStepV2(hash, hash_len, state)
+	bashHashStepV(hash, hash_len, state)
 #define bash384Hash(hash, src, count) bashHash(hash, 192, src, count)
 
 /*
@@ -270,7 +270,7 @@ bashHash512
 	bashHashStepG(hash, hash_len, state)
 #define bash512StepV(hash, state) bashHashStepV(hash, 64, state)
 #define bash512StepV2(hash, hash_len, state)\
-	bashHashStepV2(hash, hash_len, state)
+	bashHashStepV(hash, hash_len, state)
 #define bash512Hash(hash, src, count) bashHash(hash, 256, src, count)
 
 /*
